@@ -206,6 +206,11 @@ int flush_pubsub_msgs(void *data, const char *key, void *value) {
             if (msg && flushed) {
                 msg->evt.ps_evt = &mm->msg;
                 msg->evt.userdata = mm->sub ? mm->sub->userptr : NULL;
+                /* A oneshot subscription is gone once it fired, just like in the receive loop */
+                if (mm->sub && (mm->sub->flags & M_SRC_ONESHOT) &&
+                    m_map_get(mod->subscriptions, mm->sub->ps_src.topic) == mm->sub) {
+                    m_map_remove(mod->subscriptions, mm->sub->ps_src.topic);
+                }
                 m_queue_enqueue(flushed, msg);
                 continue;
             }
